@@ -202,7 +202,8 @@ pub fn exp_alphabet(quick: bool) -> Vec<[f64; 2]> {
         }
     }
     // generic grid, large and tiny arguments
-    let exps: Vec<i32> = if quick { vec![-1074, -1022, -1000, -600, -200, -60, -30, -9, -8, -7, -3, -2, -1, 0, 1, 2, 5, 8, 9, 10, 11, 20, 60, 300, 1000, 1023] } else { (-1074..=1023).step_by(3).chain(-12..=12).collect() };
+    let mut exps: Vec<i32> = crate::fx::dense_exps(-1074, 11, quick);
+    exps.extend([20, 60, 300, 1000, 1023]);
     v.extend(grid(&exps, quick, 61));
     for h in [0.0, -0.0, 709.0, 709.5, 709.78, 709.79, 710.0, 710.5, -708.0, -709.0, -745.0, -745.5, -749.9, -750.0, -751.0, -600.0, 700.0, 1e300, -1e300, f64::MAX, -f64::MAX, 5e-324, -5e-324, -core::f64::consts::LN_2, 0.4054651081081644, -0.70, 0.41, 2f64.powi(-8), -2f64.powi(-8), 1023.0, 1023.5, 1024.0, 1024.5, -1022.0, -1022.5, -1074.0, -1074.5, -1075.0, -1079.5, -1080.0, -1081.0, -900.0, 1000.0] {
         v.extend(with_los(h, &[0, 1, 30], &[0, (1u64 << 52) - 1], &[]));
